@@ -96,7 +96,7 @@ def tokeniser_state(body, paths):
                 loc[role] = t[1]
         for c in p.conds():
             t = c.term
-            if isinstance(t, tuple) and t[0] == "binop" and t[1] in ("Eq", "Ge", "Lt", "Ne") and isinstance(t[2], tuple) and t[2][0] == "havoc" and is_call(t[3], "str>::len"):
+            if isinstance(t, tuple) and t[0] == "binop" and t[1] in ("Eq", "Ge", "Lt", "Ne") and isinstance(t[2], tuple) and t[2][0] == "havoc" and is_call(t[3], "str>::len", "String::len"):
                 loc["idx"] = t[2][1]
     return loc
 
@@ -146,6 +146,9 @@ def run(ctx):
                     case_ok = cins
                 elif not truth:
                     lit_tests_false.append(lit)
+            elif is_call(t, "char>::is_ascii_alphabetic", "char>::is_ascii_lowercase", "char>::is_ascii_uppercase", "char>::is_alphabetic") and guard is None \
+                    and not (is_call(t, "char>::is_ascii_alphabetic") and cur_char(strip_refs(call_args(t)[0]))):
+                guard = ("letter-test-not-on-current-char", None)
             elif is_call(t, "char>::is_ascii_alphabetic") and guard is None:
                 if truth:
                     guard = ("letter", None)
@@ -246,14 +249,19 @@ def run(ctx):
                           "a letter pushes %s..%s for a..z (its character code), not its alphabet rank 1..26: e.g. 1.0a (0,%s) sorts above 1.0.5 although pkg_install orders it below" % (vals["a"], vals["z"], vals["a"]), fn_span(body))
     else:
         ctx.violation("D1-TOK-TABLE", DV, "row=letter", "expected exactly one letter row, found %d" % len(rs), fn_span(body))
+    bad_rows = [k for k in rows if k[0] == "letter-test-not-on-current-char"]
+    ctx.check(not bad_rows, "D1-TOK-TABLE", DV, "letter-test-on-current-char", "the letter test is is_ascii_alphabetic(current char)",
+              "the letter/other decision is not made by is_ascii_alphabetic on the character at the cursor (e.g. on a case-folded copy): the cursor can then advance by a length that is not the current character's", fn_span(body))
     # other
     rs = one(("other",))
-    ok = len(rs) >= 1 and all(not r["pushes"] and r["rev"] is None and r["adv"] is not None and len(r["adv"]) == 1 and is_call(r["adv"][0], "char>::len_utf8") for r in rs)
+    ok = len(rs) >= 1 and all(not r["pushes"] and r["rev"] is None and r["adv"] is not None and len(r["adv"]) == 1 and is_call(r["adv"][0], "char>::len_utf8")
+                              and cur_char(strip_refs(call_args(r["adv"][0])[0])) for r in rs)
     ctx.check(ok, "D1-TOK-TABLE", DV, "row=other", "other characters: nothing pushed, advance len_utf8", "characters outside the rule are not skipped as `push nothing, advance by the character's UTF-8 length`", fn_span(body))
     # the cursor char is the first char of s[idx..]
     cc = [e for p in backs for e in p.calls("Chars as std::iter::Iterator>::next")]
     okc = bool(cc) and all(mentions(e.args[0], lambda s: is_index_call(s) and strip_refs(call_args(s)[0]) == ("param", 1) and mentions(call_args(s)[1], lambda u: u[0] == "havoc" and u[1] == loc["idx"])) for e in cc)
-    ctx.check(okc, "D1-CURSOR", DV, "scans-from-cursor", "each step looks at s[idx..]", "the scanning step does not examine the text starting at the cursor", fn_span(body), nontrivial=False)
+    ctx.check(okc, "D1-CURSOR", DV, "scans-from-cursor", "each step looks at input[idx..]",
+              "the scanning step does not examine the INPUT string starting at the cursor (it scans a converted copy, e.g. a Unicode case-folded one, or another position): characters outside the rule can then become components", fn_span(body))
     # result
     rets = ret_paths(paths)
     okr = bool(rets)
@@ -265,7 +273,7 @@ def run(ctx):
         flds = dict(zip(p.end[1][5], a[2]))
         okr = okr and isinstance(flds.get("version"), tuple) and flds["version"][0] in ("havoc", "mutated") and flds["version"][1] == loc["version"] \
             and isinstance(flds.get("pkgrevision"), tuple) and flds["pkgrevision"][0] == "havoc" and flds["pkgrevision"][1] == loc["pkgrevision"]
-        endc = [c for c in p.conds() if isinstance(c.term, tuple) and c.term[0] == "binop" and c.term[1] == "Eq" and is_call(c.term[3], "str>::len")]
+        endc = [c for c in p.conds() if isinstance(c.term, tuple) and c.term[0] == "binop" and c.term[1] == "Eq" and is_call(c.term[3], "str>::len", "String::len")]
         okr = okr and bool(endc) and endc[-1].fact == ("eq", True)
     ctx.check(okr, "D1-RESULT", DV, "returns-components", "returns (version, pkgrevision) when the cursor reaches the end", "DeweyVersion::new does not return the collected components at end of input", fn_span(body), nontrivial=False)
     # purity: a function of the string alone
@@ -278,3 +286,8 @@ def run(ctx):
         ok = bool(cm) and all(is_call(strip_refs(e.args[0]), DV) and is_call(strip_refs(e.args[2]), DV) for e in cm)
         ctx.check(ok, "D5-BESTMATCH", "pattern::Pattern::best_match", "same-order", "best_match compares DeweyVersions with dewey_cmp",
                   "best_match does not compare versions with dewey::dewey_cmp on DeweyVersion::new(..)", "")
+        # every decision that looks at a version goes through dewey_cmp (a derived ==, a string comparison of versions ... is a different order)
+        other = sorted({mir.norm_path(c.term[1]) if is_call(c.term) else c.term[0] for p in bm for c in p.conds()
+                        if mentions(c.term, lambda s: is_call(s, DV, "PkgName::pkgversion")) and not is_call(c.term, "dewey::dewey_cmp")})
+        ctx.check(not other, "D5-BESTMATCH", "pattern::Pattern::best_match", "only-dewey-cmp", "versions are compared only through dewey_cmp",
+                  "best_match also decides on versions through %s: that is not the dewey order (e.g. derived equality distinguishes 1 from 1.0, which tie under zero padding)" % other, "")
